@@ -9,7 +9,7 @@ def story_xml(sid, items=(), paras=True, dur=True, tag='story', extra=''):
     for k, it in enumerate(items):
         if paras:
             body += '<p>para %s.%d</p>' % (sid, k)
-        body += '<item><itemID>%s</itemID><itemSlug>slug %s</itemSlug><objID>o%s</objID></item>' % (it, it, it)
+        body += '<item>%s<itemSlug>slug %s</itemSlug><objID>o%s</objID></item>' % ('<itemID/>' if it == '' else '<itemID>%s</itemID>' % it, it, it)
     md = ''
     if dur in ('tt', 'mt'):
         md = ('<mosExternalMetadata><mosSchema>http://x/s</mosSchema><mosPayload><%s>%d</%s></mosPayload></mosExternalMetadata>' % (
@@ -17,7 +17,8 @@ def story_xml(sid, items=(), paras=True, dur=True, tag='story', extra=''):
     elif dur:
         md = ('<mosExternalMetadata><mosSchema>http://x/s</mosSchema><mosPayload><StoryDuration>%d</StoryDuration>'
               '</mosPayload></mosExternalMetadata>' % (10 + len(items)))
-    return '<%s><storyID>%s</storyID><storySlug>slug %s</storySlug>%s%s%s</%s>' % (tag, sid, sid, body, md, extra, tag)
+    idx = '<storyID/>' if sid in ('', None) else '<storyID>%s</storyID>' % sid
+    return '<%s>%s<storySlug>slug %s</storySlug>%s%s%s</%s>' % (tag, idx, sid, body, md, extra, tag)
 
 
 def ro_xml(stories, meta_layout='before', items=None, mid=1, roid='RO1', dur=True, nodur=(), paras=True, onetime=()):
@@ -239,6 +240,32 @@ def _single_merge_cases(tier, rng):
             yield dict(kind='EAStoryInsert', args=dict(target=None, new=['N1']), ro=ro, level='story')
             yield dict(kind='StorySend', args=dict(target=S[0]), ro=ro, level='story')
             yield dict(kind='StoryAppend', args=dict(new=['N1']), ro=ro, level='story')
+        # a running order holding a story (an item) whose own ID is blank: blank references must not resolve to it
+        if len(S) == 3:
+            Sb = [S[0], '', S[1], S[2]]
+            ro = dict(stories=Sb, meta_layout='before', items={S[0]: ['1', '', '2']})
+            for t in (None, S[0], 'ZZ'):
+                yield dict(kind='StoryDelete', args=dict(ids=[t]), ro=ro, level='story')
+                yield dict(kind='StoryDelete', args=dict(ids=[t, S[2]]), ro=ro, level='story')
+                yield dict(kind='EAStoryDelete', args=dict(ids=[t]), ro=ro, level='story')
+                yield dict(kind='StoryReplace', args=dict(target=t, new=['N1']), ro=ro, level='story')
+                yield dict(kind='EAStoryReplace', args=dict(target=t, new=['N1']), ro=ro, level='story')
+                yield dict(kind='StoryInsert', args=dict(target=t, new=['N1']), ro=ro, level='story')
+                yield dict(kind='EAStoryInsert', args=dict(target=t, new=['N1']), ro=ro, level='story')
+                yield dict(kind='StorySend', args=dict(target=t), ro=ro, level='story')
+                yield dict(kind='StoryMove', args=dict(src=t, target=S[2]), ro=ro, level='story')
+                yield dict(kind='StoryMove', args=dict(src=S[2], target=t), ro=ro, level='story')
+                yield dict(kind='EAStoryMove', args=dict(target=t, ids=[S[2]]), ro=ro, level='story')
+                yield dict(kind='EAStoryMove', args=dict(target=S[0], ids=[t]), ro=ro, level='story')
+                yield dict(kind='EAStorySwap', args=dict(ids=[t, S[2]]), ro=ro, level='story')
+                yield dict(kind='ItemDelete', args=dict(story=S[0], ids=[t if t != S[0] else '1']), ro=ro, level='item')
+                yield dict(kind='EAItemDelete', args=dict(story=S[0], ids=[t if t != S[0] else '1']), ro=ro, level='item')
+                yield dict(kind='ItemReplace', args=dict(story=S[0], target=t if t != S[0] else '1', new=['n1']), ro=ro, level='item')
+                yield dict(kind='ItemInsert', args=dict(story=S[0], target=t if t != S[0] else '1', new=['n1']), ro=ro, level='item')
+                yield dict(kind='ItemMoveMultiple', args=dict(story=S[0], target=t if t != S[0] else '1', ids=['2']), ro=ro, level='item')
+                yield dict(kind='EAItemMove', args=dict(story=S[0], target='1', ids=[t if t != S[0] else '2']), ro=ro, level='item')
+                yield dict(kind='EAItemSwap', args=dict(story=S[0], ids=['1', t if t != S[0] else '2']), ro=ro, level='item')
+                yield dict(kind='ItemInsert', args=dict(story=t, target='1', new=['n1']), ro=ro, level='item')
         ro = dict(stories=S, meta_layout='all', items={S[0]: ['1', '2']})
         yield dict(kind='ReadyToAir', args={}, ro=ro, level='ro')
         yield dict(kind='RunningOrderEnd', args={}, ro=ro, level='ro')
